@@ -40,9 +40,9 @@ theorem withPos_slices (s rem : Str) : ∀ (l : List (String × Str)) (pre : Str
       exact this
 
 /-- rule names that make a default dynamic: any such token makes `dynLoop` answer `true` when the
-    element type is not one of the hyphen types -/
-theorem dynLoop_true_of_mem (names : List String) : ∀ (toks : List (String × Str)),
-    (∃ t ∈ toks, names.contains t.1 = true) → dynLoop names false toks = true
+    data type is not one of the hyphen types -/
+theorem dynLoop_true_of_mem (names : List String) (ov : Bool) : ∀ (toks : List (String × Str)),
+    (∃ t ∈ toks, names.contains t.1 = true) → dynLoop names false ov toks = true
   | [], h => by simp at h
   | (n, v) :: rest, h => by
     simp only [dynLoop, Bool.false_and, Bool.false_eq_true, if_false]
@@ -55,11 +55,11 @@ theorem dynLoop_true_of_mem (names : List String) : ∀ (toks : List (String × 
         rcases ht with ht | ht
         · subst ht; exact absurd hc hn
         · exact ⟨t, ht, hc⟩
-      simp [dynLoop_true_of_mem names rest this]
+      simp [dynLoop_true_of_mem names ov rest this]
 
-/-- no such token → static, whatever the element type -/
+/-- no such token (and no reference / call anywhere: `override = false`) → static, whatever the element type -/
 theorem dynLoop_false_of_none (names : List String) (hy : Bool) : ∀ (toks : List (String × Str)),
-    (∀ t ∈ toks, names.contains t.1 = false) → dynLoop names hy toks = false
+    (∀ t ∈ toks, names.contains t.1 = false) → dynLoop names hy false toks = false
   | [], _ => by simp [dynLoop]
   | (n, v) :: rest, h => by
     have h1 : names.contains n = false := h (n, v) (by simp)
@@ -67,6 +67,25 @@ theorem dynLoop_false_of_none (names : List String) (hy : Bool) : ∀ (toks : Li
     simp only [dynLoop, h1, h2]
     split <;> simp
 
+/-- with `override` set, a token of a dynamic rule anywhere makes the default dynamic — also for the hyphen
+    data types (a hyphen met first answers `override`) -/
+theorem dynLoop_true_of_override (names : List String) (hy : Bool) : ∀ (toks : List (String × Str)),
+    (∃ t ∈ toks, names.contains t.1 = true) → dynLoop names hy true toks = true
+  | [], h => by simp at h
+  | (n, v) :: rest, h => by
+    simp only [dynLoop]
+    split
+    · rfl
+    · by_cases hn : names.contains n = true
+      · have hn' : n ∈ names := by simpa using hn
+        simp [hn']
+      · have : ∃ t ∈ rest, names.contains t.1 = true := by
+          obtain ⟨t, ht, hc⟩ := h
+          simp only [List.mem_cons] at ht
+          rcases ht with ht | ht
+          · subst ht; exact absurd hc hn
+          · exact ⟨t, ht, hc⟩
+        simp [dynLoop_true_of_override names hy rest this]
 
 /-! ## a simple class: plain numbers (non-empty strings of ASCII digits) are one NUMBER token -/
 
